@@ -360,5 +360,14 @@ def run(ctx):
         else:
             ctx.fail("from_str:undecided", "Board::from_str has a path that does not start from from_fen(fen, false)", loc(sb))
     ctx.check(seen == {"ok", "retry", "err"}, "from_str:cases", "Board::from_str lacks one of the three cases: %s" % sorted(seen), loc(sb))
+    # the fields are handed to the text parsers of Color, Square, File (through str::parse): the FEN parser is total and
+    # strict only if those are (owned by C19; re-run here -- a Square parser that slices at a byte offset panics on a
+    # two-byte character in the en-passant field)
+    from . import c19
+    expl_, lvl_ = ctx.explanation, getattr(ctx, "level", None)
+    c19.run(ctx)
+    ctx.explanation = expl_
+    if lvl_ is not None:
+        ctx.level = lvl_
     ctx.assumptions += ["the placement column counter cannot overflow usize within an addressable string",
                         "core's integer/str parsers reject the empty string"]
